@@ -314,6 +314,16 @@ func c15Try(f func()) (msg string) {
 	return ""
 }
 
+func c15LongestLine(raw []byte) int {
+	longest := 0
+	for _, line := range bytes.Split(raw, []byte("\n")) {
+		if len(line) > longest {
+			longest = len(line)
+		}
+	}
+	return longest
+}
+
 func c15Describe(sh c15Shape, seed int64, i int) string {
 	return fmt.Sprintf("generated record #%d (VERIF_SEED %d): %d references (nil=%v), Other kind %d, %d features, attributes kind %d, location depth %d, sequence length %d",
 		i, seed, sh.refs, sh.refsNil, sh.other, sh.features, sh.attrs, sh.depth, sh.seqLen)
@@ -335,13 +345,19 @@ func c15CheckRecord(vr, vl *verifRun, dir string, w int, sh c15Shape, rng *rand.
 		vr.Fail("panic", what, p)
 		return
 	}
+	raw, err := ioutil.ReadFile(path)
+	// the shape that sets a long record apart: Write puts the whole sequence on
+	// one line, which for ~65.5 kb or more is a line of the file beyond 64 KiB
+	cls := func(class string) string { return class }
+	if err == nil && c15LongestLine(raw) > 64*1024 {
+		cls = func(string) string { return "sequence-beyond-64k" }
+	}
 	if d := c15Diff("Sequence", reflect.ValueOf(*rec), reflect.ValueOf(got)); d != "" {
-		vr.Fail(c15ClassOf(d), what, c15Clip(d))
+		vr.Fail(cls(c15ClassOf(d)), what, c15Clip(d))
 	}
 
 	// relink, through Parse on the bytes of the file
 	vl.Case(what, len(rec.Features) > 0)
-	raw, err := ioutil.ReadFile(path)
 	if err != nil {
 		vl.Fail("file-unreadable", what, err.Error())
 		return
@@ -354,26 +370,26 @@ func c15CheckRecord(vr, vl *verifRun, dir string, w int, sh c15Shape, rng *rand.
 		}
 		name := []string{"Read", "Parse"}[pass]
 		if len(back.Features) != len(want) {
-			vl.Fail("feature-count", what, fmt.Sprintf("%s returns %d features, %d written", name, len(back.Features), len(want)))
+			vl.Fail(cls("feature-count"), what, fmt.Sprintf("%s returns %d features, %d written", name, len(back.Features), len(want)))
 			continue
 		}
 		for k, f := range back.Features {
 			if f.ParentSequence == nil {
-				vl.Fail("parent-nil", what, fmt.Sprintf("%s: feature %d has no parent", name, k))
+				vl.Fail(cls("parent-nil"), what, fmt.Sprintf("%s: feature %d has no parent", name, k))
 				break
 			}
 			if f.ParentSequence.Sequence != back.Sequence {
-				vl.Fail("parent-other-sequence", what, fmt.Sprintf("%s: feature %d points at a parent holding %s, the record holds %s", name, k, c15Clip(f.ParentSequence.Sequence), c15Clip(back.Sequence)))
+				vl.Fail(cls("parent-other-sequence"), what, fmt.Sprintf("%s: feature %d points at a parent holding %s, the record holds %s", name, k, c15Clip(f.ParentSequence.Sequence), c15Clip(back.Sequence)))
 				break
 			}
 			var s string
 			if p := c15Try(func() { s = f.GetSequence() }); p != "" {
-				vl.Fail("getsequence-panic", what, fmt.Sprintf("%s: feature %d: %s", name, k, p))
+				vl.Fail(cls("getsequence-panic"), what, fmt.Sprintf("%s: feature %d: %s", name, k, p))
 				break
 			}
 			before := rec.Features[k].GetSequence()
 			if s != want[k] || s != before {
-				vl.Fail("feature-sequence-differs", what, fmt.Sprintf("%s: feature %d gives %s, before serialisation %s, independent evaluation %s", name, k, c15Clip(s), c15Clip(before), c15Clip(want[k])))
+				vl.Fail(cls("feature-sequence-differs"), what, fmt.Sprintf("%s: feature %d gives %s, before serialisation %s, independent evaluation %s", name, k, c15Clip(s), c15Clip(before), c15Clip(want[k])))
 				break
 			}
 		}
@@ -681,8 +697,10 @@ func c15Convert(v *verifRun, dir string, w int, text string, parse func([]byte) 
 
 func TestVerifC15(t *testing.T) {
 	nRandom, nGb, nGff := 15000, 10000, 10000
+	longLens, longPer := []int{70000, 200000}, 4
 	if verifThorough() {
 		nRandom, nGb, nGff = 600000, 400000, 400000
+		longLens, longPer = []int{65000, 65536, 66000, 70000, 100000, 200000, 1000000}, 12
 	}
 	dir, err := ioutil.TempDir("", "verif-c15-")
 	if err != nil {
@@ -694,7 +712,8 @@ func TestVerifC15(t *testing.T) {
 	content := "every Meta, Locus, Reference, Feature and Sequence field filled from a pool of ASCII, punctuation (quotes, backslash, <, &, tab, newline, NUL, U+2028) and non-ASCII text (Latin-1, CJK, Greek, 4-byte code points, combining marks; valid UTF-8 only, JSON text cannot carry anything else), ints incl. 0, negative and 63-bit; " +
 		"location structures valid for the sequence, Join nodes of 2..4 operands nested to depth 4, Complement and both partial flags on any node, leaf SubLocations nil or empty; sequences over ACGT"
 	axes := "systematic part: every combination of references {0 nil, 0 empty, 1, 5} x Other {nil, empty, 1 key, several} x Features {nil, empty, 1, 3} x attributes {nil, empty, 1, several} x location depth {0..4} (1280 shapes, content random); " +
-		"random part: " + strconv.Itoa(nRandom) + " seeded records, 0..5 references, 0..6 features, sequence length 0..300"
+		"random part: " + strconv.Itoa(nRandom) + " seeded records, 0..5 references, 0..6 features, sequence length 0..300; " +
+		"long part: " + strconv.Itoa(longPer) + " records for each sequence length in " + fmt.Sprint(longLens) + " (0..2 references, 1..3 features or none, location depth 0..2; Write puts the sequence on ONE line of the file, beyond 64 KiB from about 65.5 kb on; a failure on a file with such a line is classed sequence-beyond-64k)"
 	vr := newVerifRun("C15", "io/polyjson.Write-Read/post/roundtrip",
 		"Write to a file in a temporary directory, Read back, compare every field by reflection (nil = empty collection, ParentSequence pointer not compared); "+content+"; "+axes+"; non-trivial = has a feature, a reference or an Other entry")
 	vl := newVerifRun("C15", "io/polyjson.Parse/post/relink",
@@ -726,6 +745,17 @@ func TestVerifC15(t *testing.T) {
 			}
 		}
 	}
+	// long records: the sequence (one line of the written file) beyond 64 KiB
+	var longShapes []c15Shape
+	for li, n := range longLens {
+		for k := 0; k < longPer; k++ {
+			sh := c15Shape{refs: k % 3, refsNil: k%2 == 0, other: (k + li) % 4, features: 1 + k%3, attrs: (k + 2) % 4, depth: k % 3, seqLen: n}
+			if k == 3 {
+				sh.features = -1 // no feature at all: only metadata and the sequence
+			}
+			longShapes = append(longShapes, sh)
+		}
+	}
 	const workers = 16
 	var wg sync.WaitGroup
 	var mu sync.Mutex
@@ -737,6 +767,10 @@ func TestVerifC15(t *testing.T) {
 			rng := rand.New(rand.NewSource(seed*7919 + int64(w)))
 			for i := w; i < len(shapes); i += workers {
 				c15CheckRecord(vr, vl, dir, w, shapes[i], rng, seed, i)
+			}
+			rngLong := rand.New(rand.NewSource(seed*7919 + 1000 + int64(w))) // own stream: the other parts stay what they were
+			for i := w; i < len(longShapes); i += workers {
+				c15CheckRecord(vr, vl, dir, w, longShapes[i], rngLong, seed, len(shapes)+nRandom+i)
 			}
 			for i := w; i < nRandom; i += workers {
 				sh := c15Shape{refs: rng.Intn(6), refsNil: rng.Intn(2) == 0, other: rng.Intn(4), features: rng.Intn(8) - 1, attrs: rng.Intn(4), depth: rng.Intn(5), seqLen: rng.Intn(301)}
